@@ -230,6 +230,9 @@ pub fn main(types: Vec<TypeEntry>, shapes: Vec<&'static str>, table_src: &str) -
         if l.fields.iter().any(|f| matches!(f.enc, Enc::Struct(_))) {
             st.class("programs:with-nested-struct");
         }
+        if shape.contains("?q") || shape.contains("*q") {
+            st.class("programs:container-type-spelled-with-a-path");
+        }
         if l.ctrl.is_some() {
             st.class("programs:command");
         }
@@ -273,7 +276,7 @@ pub fn main(types: Vec<TypeEntry>, shapes: Vec<&'static str>, table_src: &str) -
         };
     }
     let rule = format!(
-        "{programs} struct definitions drawn (proptest, seeded) from the well-formed attribute grammar of DESIGN.md Appendix D (1..8 fields, positional then tagged, Option/Vec, every length style and encoding, nested structs to depth 3, optional control field, both attribute spellings, 1- and 2-byte tags; plus directed families: positional Option<struct> / struct without length prefix whose struct has tagged fields only, as last field, followed by tagged fields of the enclosing struct, one level deeper, and structs with 3..6 mandatory tagged fields), compiled against /repo's derive macro; per struct {per_struct} proptest-generated canonical values of the generator's own layout description. Oracle per (program, value): reference codec vs generated code (decodes to exactly the described fields, re-encodes identically, round-trips), tagged-group edits (C13 oracle), suffix / shortened-APDU relations (C14 oracle), truncation/byte-edit totality with the allocation bound. evaluations = (program, value) pairs; non-trivial = the struct has both positional and tagged fields, or a nested struct, or a Vec; distinct by (program shape, encoded value)"
+        "{programs} struct definitions drawn (proptest, seeded) from the well-formed attribute grammar of DESIGN.md Appendix D (1..8 fields, positional then tagged, Option/Vec, every length style and encoding, nested structs to depth 3, optional control field, both attribute spellings, container types spelled `Option<T>` / `std::option::Option<T>` / `::core::option::Option<T>` (likewise Vec), 1- and 2-byte tags; plus directed families: positional Option<struct> / struct without length prefix whose struct has tagged fields only, as last field, followed by tagged fields of the enclosing struct, one level deeper, and structs with 3..6 mandatory tagged fields), compiled against /repo's derive macro; per struct {per_struct} proptest-generated canonical values of the generator's own layout description. Oracle per (program, value): reference codec vs generated code (decodes to exactly the described fields, re-encodes identically, round-trips), tagged-group edits (C13 oracle), suffix / shortened-APDU relations (C14 oracle), truncation/byte-edit totality with the allocation bound. evaluations = (program, value) pairs; non-trivial = the struct has both positional and tagged fields, or a nested struct, or a Vec; distinct by (program shape, encoded value)"
     );
     let code = ctx.finish(stats, &rule, &["well-formedness (unique decodability) is established by construction in props/c12.rs; layouts outside it are not programs in the property's sense", "program-level shrinking is by isolation of the failing struct (the replay file carries its source and table entry)"], false);
     // translation-style extra key: number of programs
